@@ -198,6 +198,14 @@ def searchAni {V : Type} (kind : SearchKind) (ci : Bool) (r12 mc : CiAns V) (j :
   | .maxContainment => .ok (cmpDirectional ci mc)
   | .jaccard => j.map fun r => { ani := r.ani, lo := none, hi := none, px := r.px }
 
+/-- the compare-level entry points (`sourmash.compare`, `return_ani=True`): `ani = result.ani; if ani is None: ani = 0.0`
+    on EVERY path (serial loop bodies and the per-pair worker of the multi-process path) -/
+def compareAniEntry {V : Type} (zero : V) (a : Option V) : V := a.getD zero
+
+/-- `compare_serial_avg_containment(return_ani=True)`: mean of the two directional estimates, 0.0 if either is withheld -/
+def compareAvgAniEntry {V : Type} (avg : V → V → V) (zero : V) (a1 a2 : Option V) : V :=
+  compareAniEntry zero (avgAni avg a1 a2)
+
 /-! ### 2. closed forms on binary64 -/
 
 /-- `r1_to_q(k, r1) = 1 - (1 - r1) ** k` -/
